@@ -414,7 +414,7 @@ static void declare_expectation(const ExpD& e) {
     MockExpectedCall& ec = e.api == A_ONE ? ms.expectOneCall(e.name.c_str()) : ms.expectNCalls(e.count, e.name.c_str());
     for (const Item& it : e.items) {
         switch (it.kind) {
-        case I_OBJ: ec.onObject(&pobj[it.obj]); break;
+        case I_OBJ: ec.onObject(it.obj == 3 ? nullptr : (void*) &pobj[it.obj]); break;          // object #3 is the null object: a specific object like any other
         case I_IN: expect_in(ec, it); break;
         case I_OUT: if (e.unmodOut) ec.withUnmodifiedOutputParameter(it.name.c_str()); else ec.withOutputParameterReturning(it.name.c_str(), g_outBytes[e.idx], e.outLen); break;
         default: ec.withOutputParameterOfTypeReturning("T1", it.name.c_str(), &g_outTyped[e.idx]); break;
@@ -485,7 +485,7 @@ static bool run_call(const CallD& c, CallRec& r) {
     if (rec_failed()) return false;
     for (const Item& it : c.items) {
         switch (it.kind) {
-        case I_OBJ: ac.onObject(&pobj[it.obj]); break;
+        case I_OBJ: ac.onObject(it.obj == 3 ? nullptr : (void*) &pobj[it.obj]); break;
         case I_IN: pass_in(ac, it); break;
         case I_OUT: ac.withOutputParameter(it.name.c_str(), r.buf); break;
         default: ac.withOutputParameterOfType("T1", it.name.c_str(), &r.typedDst); break;
